@@ -49,9 +49,20 @@ func (c16) Gen(rng *simrt.Rand, seed uint64, tier string) *Case {
 		on += " AND k2 = m.k2"
 	}
 	sql := fmt.Sprintf("SELECT id, m.ver AS ver FROM stream %s meta m ON %s", join, on)
+	mixed := ""
 	if two {
 		sql = fmt.Sprintf("SELECT id, m.ver AS ver, n.ver AS ver2 FROM stream %s meta m ON k = m.k %s meta2 n ON k = n.k", join, join)
+		if rng.Bool(0.4) {
+			// different join types in one statement: each JOIN keeps its own
+			mixed = []string{"left_inner", "inner_left"}[rng.Intn(2)]
+			j1, j2 := "LEFT JOIN", "JOIN"
+			if mixed == "inner_left" {
+				j1, j2 = "INNER JOIN", "LEFT JOIN"
+			}
+			sql = fmt.Sprintf("SELECT id, m.ver AS ver, n.ver AS ver2 FROM stream %s meta m ON k = m.k %s meta2 n ON k = n.k", j1, j2)
+		}
 	}
+	c.X["mixed"] = mixed
 	if rng.Bool(0.3) && !two {
 		sql = fmt.Sprintf("SELECT s.id, m.ver AS ver FROM stream s %s meta m ON s.%s", join, map[bool]string{false: "k = m.k", true: "k = m.k AND s.k2 = m.k2"}[composite])
 	}
@@ -292,6 +303,13 @@ func (c16) Run(e *Env) {
 	if windowed {
 		e.Probe("window_path_join")
 	}
+	leftT := map[string]bool{"meta": left, "meta2": left}
+	switch e.C.xStr("mixed") {
+	case "left_inner":
+		leftT["meta"], leftT["meta2"] = true, false
+	case "inner_left":
+		leftT["meta"], leftT["meta2"] = false, true
+	}
 	tablesOfProbe := []string{"meta"}
 	if two {
 		tablesOfProbe = append(tablesOfProbe, "meta2")
@@ -334,14 +352,12 @@ func (c16) Run(e *Env) {
 						e.Violate("C16/shape", "missing-column", "probe %s: joined column %s absent from result %s", op.Tag, verCol[t], canon(out))
 					}
 				}
-				if !left {
-					for _, t := range tablesOfProbe {
-						if out[verCol[t]] == nil {
-							e.Violate("C16/shape", "inner-null", "probe %s: INNER JOIN produced a row with NULL %s: %s", op.Tag, verCol[t], canon(out))
-						}
+				for _, t := range tablesOfProbe {
+					if !leftT[t] && out[verCol[t]] == nil {
+						e.Violate("C16/shape", "inner-null", "probe %s: INNER JOIN produced a row with NULL %s: %s", op.Tag, verCol[t], canon(out))
 					}
 				}
-			} else if left {
+			} else if allLeft(leftT, tablesOfProbe) {
 				e.Violate("C16/shape", "left-dropped", "probe %s (k=%s): LEFT JOIN produced no row", op.Tag, canon(op.Row["k"]))
 				continue
 			}
@@ -354,6 +370,9 @@ func (c16) Run(e *Env) {
 			} else if !two {
 				// INNER, single table: no output == the lookup found nothing
 				add(rec.Client, c16In{"r", "meta", keyOf(op.Row), 0}, rec.Inv, ret, c16Out{Found: false})
+			} else if inner := innerTables(leftT, tablesOfProbe); len(inner) == 1 {
+				// one INNER and one LEFT join: no output == the INNER table's lookup found nothing
+				add(rec.Client, c16In{"r", inner[0], keyOf(op.Row), 0}, rec.Inv, ret, c16Out{Found: false})
 			} else {
 				e.Probe("inner_two_table_drop_not_attributable")
 			}
@@ -426,4 +445,23 @@ func (c16) Run(e *Env) {
 		e.Probe("slow_table_source")
 	}
 	e.R.Summary = map[string]any{"sql": in.Spec.SQL, "ops": opn, "left": left, "composite": composite, "two_tables": two}
+}
+
+func allLeft(leftT map[string]bool, tables []string) bool {
+	for _, t := range tables {
+		if !leftT[t] {
+			return false
+		}
+	}
+	return true
+}
+
+func innerTables(leftT map[string]bool, tables []string) []string {
+	var out []string
+	for _, t := range tables {
+		if !leftT[t] {
+			out = append(out, t)
+		}
+	}
+	return out
 }
